@@ -27,12 +27,12 @@ func c22(c *Ctx) {
 			label   string
 		}
 		sites := []site{
-			{"grpc", "pickerWrapper.pick", ctxDone, "picker wait"},
-			{"grpc", "ClientConn.waitForResolvedAddrs", ctxDone, "name-resolution wait"},
-			{"grpc", "csAttempt.shouldRetry", ctxDone, "retry backoff wait"},
-			{tr, "http2Client.NewStream", ctxDone, "stream-quota wait"},
+			{"grpc", "pickerWrapper.pick", doneOf(ParamV("ctx")), "picker wait"},
+			{"grpc", "ClientConn.waitForResolvedAddrs", doneOf(ParamV("ctx")), "name-resolution wait"},
+			{"grpc", "csAttempt.shouldRetry", doneOf(FieldLoad(c.field("grpc", "clientStream", "ctx"))), "retry backoff wait"},
+			{tr, "http2Client.NewStream", doneOf(ParamV("ctx")), "stream-quota wait"},
 			{tr, "writeQuota.get", FieldLoad(c.field(tr, "writeQuota", "done")), "write-quota wait"},
-			{tr, "ClientStream.waitOnHeader", ctxDone, "header wait"},
+			{tr, "ClientStream.waitOnHeader", doneOf(FieldLoad(c.field(tr, "Stream", "ctx"))), "header wait"},
 			{tr, "recvBufferReader.read", FieldLoad(c.field(tr, "recvBufferReader", "ctxDone")), "receive wait"},
 			{tr, "recvBufferReader.readClient", FieldLoad(c.field(tr, "recvBufferReader", "ctxDone")), "receive wait (client)"},
 			{tr, "recvBufferReader.readMessageHeader", FieldLoad(c.field(tr, "recvBufferReader", "ctxDone")), "header-bytes wait"},
@@ -199,4 +199,18 @@ func c22(c *Ctx) {
 			c.Expect(ok, nil, initf, pr.v+"-code", pr.v+" is not a status with code "+pr.code)
 		}
 	})
+}
+
+// doneOf matches x.Done() where the context x satisfies recv (the RPC's context, not some other context in scope).
+func doneOf(recv VM) VM {
+	return func(v ssa.Value) bool {
+		call, ok := strip(v).(*ssa.Call)
+		if !ok || !CalleeX("context", "Context.Done")(&call.Call) {
+			return false
+		}
+		if call.Call.IsInvoke() {
+			return recv(call.Call.Value)
+		}
+		return len(call.Call.Args) > 0 && recv(call.Call.Args[0])
+	}
 }
